@@ -163,12 +163,13 @@ class Path:
 # ------------------------------------------------------------------------------------------ executor
 class Exec:
     def __init__(self, fn, models, bound=3, variant_index=None, fresh_types=None, consts=None, max_paths=20000,
-                 stop_at=None, on_stop=None, mf=None, inline=None, max_depth=12):
+                 stop_at=None, on_stop=None, mf=None, inline=None, max_depth=12, top_suffix=""):
         self.fn = fn
         self.mf = mf
         self.inline = inline          # None = never inline; otherwise a regex: crate-local callees matching it are executed inline
         self.max_depth = max_depth
-        self.frame_fns = {"": fn}
+        self.top_suffix = top_suffix   # locals of the entry function live under `_N<top_suffix>` (nested synchronous runs)
+        self.frame_fns = {top_suffix: fn}
         self.nframes = 0
         self.inlined = set()
         self.models = models                 # list of (regex, callable(ex, st, argv, dst, callee) -> [(value, [constraints], event|None)])
@@ -189,7 +190,7 @@ class Exec:
         return st.frames[-1][0] if st.frames else self.fn
 
     def sfx(self, st):
-        return st.frames[-1][1] if st.frames else ""
+        return st.frames[-1][1] if st.frames else self.top_suffix
 
     def q(self, st, root):
         return root + self.sfx(st) if re.match(r"^_\d+$", root) else root
@@ -815,7 +816,7 @@ class Exec:
                     if dst_txt:
                         self.write(st, dst_txt, val)
                     return self.goto(ret_bb, st)
-                return self.end("return", st, self._get_root(st, "_0"))
+                return self.end("return", st, self._get_root(st, "_0" + self.top_suffix))
             if s == "unreachable;":
                 return
             if s.startswith("resume") or s.startswith("terminate"):
@@ -1051,6 +1052,37 @@ def balanced(t):
                 return False
         i += 1
     return d == 0
+
+
+_SUB = [0]
+
+
+def subcall(ex, st, fn, argv):
+    """Run `fn` synchronously on a fork of `st` (used by models of std algorithms that call a crate-local closure several times).
+    Returns [(return value, extra path constraints)] for the returning paths; a possible panic is reported as the string "PANIC:..."."""
+    _SUB[0] += 1
+    sfx = "@sub%d" % _SUB[0]
+    sub = type(ex)(fn, ex.models, bound=ex.bound, variant_index=ex.variant_index, consts=ex.consts, mf=ex.mf, inline=ex.inline,
+                   max_depth=ex.max_depth, top_suffix=sfx, max_paths=ex.max_paths)
+    s2 = st.fork()
+    s2.frames, s2.visits = [], {}
+    if len(fn.args) != len(argv):
+        raise Unsupported("argument count mismatch in subcall of " + fn.header[:60])
+    for a, v in zip(fn.args, argv):
+        s2.env[a + sfx] = v
+    base = len(st.pc)
+    out = []
+    for p in sub.run("bb0", s2):
+        if p.kind == "return":
+            out.append((p.ret, list(p.st.pc[base:])))
+        elif p.kind == "panic":
+            return "PANIC:" + str(p.info)[:80]
+        elif p.kind == "bound":
+            raise Unsupported("nested call cut by the loop bound: " + fn.header[:60])
+    ex.queries += sub.queries
+    ex.solver_time += sub.solver_time
+    ex.inlined |= sub.inlined | {fn.header.split("(")[0][3:]}
+    return out
 
 
 # ------------------------------------------------------------------------------------------ generic callee models
